@@ -418,7 +418,8 @@ package cert
 //@   ensures @C20,C17,C14 res.PrivateKey != nil ==> unboxRef(res.PrivateKey) != 0
 // (C11, C14: text after the last block is reported as an error, but what the blocks held is still returned - importPem
 // logs the error and stores the content, so a hand-edited artifact file does not make its certificate and key "missing")
-//@   let NOBLK = callres("encoding/pem.Decode", 0, 0) == nil
+//@   ghostret LASTBLK Int = callres("encoding/pem.Decode", 0, 0)
+//@   let NOBLK = bound(LASTBLK) && LASTBLK == 0
 //@   ensures @C11,C14 NOBLK ==> ((res.Certificate != nil) <==> pemAny(D0, 1, false)) && ((res.Request != nil) <==> pemAny(D0, 2, false)) && ((res.PrivateKey != nil) <==> pemAny(D0, 3, false))
 //@   ensures @C11,C14 NOBLK && res.Certificate != nil ==> deep(deref(res.Certificate)) == pemLastD(D0, 1, #noDeep)
 //@   loop 1
